@@ -352,3 +352,35 @@ func guarded(p *core.Prog, r *core.Result, rule string, spec core.GuardSpec) int
 	}
 	return len(accs)
 }
+
+// holdsX is holds() that also looks through in-module boolean helper predicates: a fact "helper(args) == v" is
+// expanded into the facts that hold inside the helper when it returns v; `arg` maps the helper's parameters back to
+// the caller's argument values (identity for other values).
+func holdsX(p *core.Prog, at ssa.Instruction, val bool, pred func(c ssa.Value, arg func(ssa.Value) ssa.Value) bool) bool {
+	id := func(v ssa.Value) ssa.Value { return v }
+	for f := range p.FactsAt(at) {
+		if f.Val == val && pred(f.Cond, id) {
+			return true
+		}
+		call, ok := f.Cond.(*ssa.Call)
+		if !ok {
+			continue
+		}
+		cf, subst := p.CalleeFacts(call, f.Val)
+		if cf == nil {
+			continue
+		}
+		arg := func(v ssa.Value) ssa.Value {
+			if a, ok := subst[v]; ok {
+				return a
+			}
+			return v
+		}
+		for g := range cf {
+			if g.Val == val && pred(g.Cond, arg) {
+				return true
+			}
+		}
+	}
+	return false
+}
